@@ -399,6 +399,9 @@ def compiled_jobs(tier, sd):
     jobs.append({"id": "d-split", "family": "directed:split(W,C) -> padded kernels", "net": n.desc(outs), "opts": {"accel": "ethos-u55-128"}})
     jobs += corpus.all_singles(sd)
     jobs += corpus.draw(30 if tier == "quick" else 1000, sd, families=COMPILED_FAMILIES, dedicated_bias=0.5)
+    # graph shapes (corpus_shapes.py): asymmetric strides, extreme extents through cascades, composed read / write offsets
+    jobs += corpus.shape_jobs(sd, tier, families=["astride", "astride", "extreme", "extreme", "catcat", "reshape_between", "tr_hw",
+                                                  "tiny_depth", "islands", "fanout", "ewchain"], thorough=20)
     jobs = sweep_jobs(tier, sd) + jobs            # the big ones first: they bound the wall time of the background thread
     for n, j in enumerate(jobs):
         j["id"] = "c%d" % n
